@@ -116,6 +116,7 @@ pub fn blocked<T: Payload + 'static>(
     spur: u8,
     clock: u8,
     par: u8,
+    peer_d: u8,
 ) {
     let d: u8 = sym_env(spur, clock, par);
     let mut cx = Ctx::<T>::new(Some(cap));
@@ -128,7 +129,7 @@ pub fn blocked<T: Payload + 'static>(
         prefilled = true;
     }
     // peer uses tag 2 when it sends; an async peer is polled with waker 1
-    cx.inject(0, 0, site, 1, act(peer_k).tag(2).w(1).d(0));
+    cx.inject(0, 0, site, 1, act(peer_k).tag(2).w(1).d(peer_d));
     let t0 = model::std::time::peek().secs();
     let r = unsafe { exec(&mut cx, act(outer_k).tag(1).d(d)) };
     let t1 = model::std::time::peek().secs();
@@ -287,7 +288,7 @@ fn pick_waker() -> u8 {
 /// waker, then one peer action (thread 1) as an ordinary step, then the final poll.
 ///  * send_side: the future is a SendFuture (tag 1) on a full channel, else a ReceiveFuture
 ///  * repolls: number of spurious polls before the peer acts (0..2), each with a symbolic waker
-pub fn async_waiter<T: Payload + 'static>(cap: usize, send_side: bool, peer_k: u8, repolls: u8) {
+pub fn async_waiter<T: Payload + 'static>(cap: usize, send_side: bool, peer_k: u8, repolls: u8, peer_d: u8) {
     sym_env(0, 0, 0);
     let mut cx = Ctx::<T>::new(Some(cap));
     cx.install();
@@ -310,7 +311,7 @@ pub fn async_waiter<T: Payload + 'static>(cap: usize, send_side: bool, peer_k: u
         i += 1;
     }
     assert!(cx.abs().wlen == 1, "C16: spurious polls changed the waiting list");
-    let p = step(&mut cx, 1, act(peer_k).tag(2).w(2).f(1));
+    let p = step(&mut cx, 1, act(peer_k).tag(2).w(2).f(1).d(peer_d));
     let pc = class_of(peer_k);
     let moved = (p.code == R_OK && (pc == SENDERISH || pc == RECEIVERISH)) || (p.code == R_COUNT && p.tag > 0);
     let killed = (pc == CLOSER && p.code == R_OK) || pc == LASTDROP;
@@ -599,10 +600,12 @@ fn seq_step<T: Payload + 'static>(cx: &mut Ctx<T>, sp: &mut Spec, k: u8, i: usiz
             // handles are dropped from the highest index; handle 0 lends itself to futures
             kani::assume(ls > 0 && (ls > 1 || !sf_live));
             a.h = (ls - 1) as u8;
+            a.d = d;
         }
         A_DROP_R => {
             kani::assume(lr > 0 && (lr > 1 || !rf_live));
             a.h = (lr - 1) as u8;
+            a.d = d;
         }
         A_ASEND_START => kani::assume(ls > 0 && cx.sf[f as usize].is_none()),
         A_ASEND_POLL => kani::assume(cx.sf[f as usize].is_some() && sp.sf[f as usize].st != spec::F_DONE),
